@@ -415,6 +415,12 @@ int main(void)
     } else if (!strncmp(line, "env ", 4)) { hwv_config_line(NULL, line); continue; }
     na = sscanf(line, "%31s %4199s %4199s %63s %63s", cmd, a1, a2, a3, a4);
     if (!strcmp(cmd, "echo")) { printf("%s\n", line); continue; }
+    if (!strcmp(cmd, "prefill")) { /* what the caller's OUTPUT bitmaps hold before every get-call: <set> | default */
+      hwloc_bitmap_t b = strcmp(a1, "default") ? hwv_parse_set(a1) : NULL;
+      hwloc_bitmap_zero(sentinel);
+      if (b) { hwloc_bitmap_copy(sentinel, b); hwloc_bitmap_free(b); } else { hwloc_bitmap_set(sentinel, 77); hwloc_bitmap_set(sentinel, 3); }
+      continue;
+    }
     if (!strcmp(cmd, "new")) {
       if (t) hwloc_topology_destroy(t);
       hwloc_topology_init(&t); loaded = 0; hooks_mode = 0; saved_hooks_of = NULL;
@@ -501,7 +507,7 @@ int main(void)
     }
     if (!strcmp(cmd, "ot") || !strcmp(cmd, "tp") || !strcmp(cmd, "cp")) { /* round trip on ANOTHER thread (pthread_t / tid) or on a CHILD process */
       static pid_t child; static int p2c[2], c2p[2];
-      hwloc_bitmap_t b = hwv_parse_set(a1), g = hwloc_bitmap_alloc(), raw = hwloc_bitmap_alloc(), last = hwloc_bitmap_alloc();
+      hwloc_bitmap_t b = hwv_parse_set(a1), g = hwloc_bitmap_alloc_full(), raw = hwloc_bitmap_alloc(), last = hwloc_bitmap_alloc_full();   /* outputs pre-filled */
       int fl = (int)strtoul(a2, NULL, 0), rs = -2, rg = -2, rl = -2, es = 0; pid_t target; char c = 'r';
       if (!t || !loaded || !b) { printf("ot-error\n"); continue; }
       if (!strcmp(cmd, "cp")) {
@@ -544,7 +550,7 @@ int main(void)
       continue;
     }
     if (!strcmp(cmd, "lcl")) { /* <main|mainproc|worker|child> <flags>: last cpu location of that task */
-      hwloc_bitmap_t last = hwloc_bitmap_alloc(); int fl = (int)strtoul(a2, NULL, 0), rl = -2, e;
+      hwloc_bitmap_t last = hwloc_bitmap_alloc_full(); int fl = (int)strtoul(a2, NULL, 0), rl = -2, e;   /* output pre-filled */
       if (!t || !loaded) { printf("lcl-error\n"); continue; }
       errno = 0;
       if (!strcmp(a1, "main")) rl = hwloc_get_last_cpu_location(t, last, fl);
@@ -588,7 +594,7 @@ int main(void)
       hwloc_bitmap_free(j.before); hwloc_bitmap_free(j.after); hwloc_bitmap_free(j.main_before); hwloc_bitmap_free(j.main_after); continue;
     }
     if (!strcmp(cmd, "rt")) { /* live round trip on the loaded native topology: <set> <flags> */
-      hwloc_bitmap_t b = hwv_parse_set(a1), g = hwloc_bitmap_alloc(), raw = hwloc_bitmap_alloc(), last = hwloc_bitmap_alloc();
+      hwloc_bitmap_t b = hwv_parse_set(a1), g = hwloc_bitmap_alloc_full(), raw = hwloc_bitmap_alloc(), last = hwloc_bitmap_alloc_full();   /* outputs pre-filled */
       int fl = (int)strtoul(a2, NULL, 0), rs, rg, rl, es = 0;
       if (!t || !loaded || !b) { printf("rt-error\n"); continue; }
       errno = 0; rs = hwloc_set_cpubind(t, b, fl); es = errno;
